@@ -423,7 +423,9 @@ package core
 // Catalog construction, per-directive handlers (C03: the fault is rejected and located on the offending directive).
 // namedParam(d, k): the value NamedParameter(k) returns.
 //@ pred hasParam(d *directive.Directive, k string) := d.namedParameters != nil && has(d.namedParameters, k) && d.namedParameters[k] != ""
-//@ pred atKeyword(e *jerr.JApiError, d *directive.Directive) := e != nil && e.File == d.keywordCoords.file && e.Index == d.keywordCoords.begin
+// tracedBy(e, d): the include trace of e was taken from the tracer of directive d (ghost, see directive's contract file)
+//@ pred tracedBy(e *jerr.JApiError, d *directive.Directive) := e.gTracerTag == d.includeTracer.tag && e.gTracerRef == d.includeTracer.ref
+//@ pred atKeyword(e *jerr.JApiError, d *directive.Directive) := e != nil && e.File == d.keywordCoords.file && e.Index == d.keywordCoords.begin && tracedBy(e, d)
 
 //@ func (*JApiCore).addJSight(core, d)
 //@   property C03,C05
@@ -785,6 +787,8 @@ package core
 //@   keeps directive.Directive, fs.File
 //@   ensures[C03,@setter-error-reported] imp(setterFailed(core, old(core.catalog), old(core.catalog.gFailed)), result != nil)
 //@   ensures[C03,C07,@error-in-directive-file] imp(result != nil, errIn(result, d) || atKeyword(result, d.Parent))
+// a Body under a response / Request that already has a parameter: the error is the parent's - its keyword, its trace
+//@   ensures[C03,C07,@parent-parameters-forbidden] imp(old(len(d.Parent.namedParameters) != 0 && d.Parent.type_ != directive.Macro), atKeyword(result, d.Parent))
 
 //@ func (*JApiCore).addJsonRpcParams(core, d)
 //@   property C03,C01
